@@ -31,3 +31,57 @@ pub broadcast axiom fn axiom_btree_into_iter_laws<K, V, A: core::alloc::Allocato
     ensures
         #[trigger] vstd::std_specs::iter::IteratorSpec::obeys_prophetic_iter_laws(&e),
         vstd::std_specs::iter::IteratorSpec::decrease(&e) == Some(vstd::std_specs::iter::IteratorSpec::remaining(&e).len());
+
+// ---- iteration by reference ------------------------------------------------------
+// `map.iter()` yields the entries in ascending key order; every call on the same map yields
+// the same sequence, written `btree_seq(m)` (uninterpreted: sorted, covers the map exactly).
+// (btree_map::Iter already has a type specification in vstd)
+pub uninterp spec fn btree_seq<K, V>(m: Map<K, V>) -> Seq<(K, V)>;
+
+pub axiom fn axiom_btree_seq<K, V>(m: Map<K, V>)
+    ensures
+        btree_seq(m).len() == m.len(),
+        forall|i: int| 0 <= i < btree_seq(m).len() ==> m.contains_key(#[trigger] btree_seq(m)[i].0) && m[btree_seq(m)[i].0] == btree_seq(m)[i].1,
+        forall|i: int, j: int| 0 <= i < j < btree_seq(m).len() ==> btree_seq(m)[i].0 != btree_seq(m)[j].0;
+
+// X7 call shims for `map.iter()` and `map.iter().enumerate()`.
+// vstd specifies BTreeMap::iter (entries of the map, keys not repeated) but not that two
+// iterations of the same map yield the SAME sequence; std documents ascending key order, so
+// the sequence is a function of the map.  The one `assume` below states exactly that.
+pub fn vx_btree_iter<'a, K, V>(m: &'a std::collections::BTreeMap<K, V>) -> (r: std::collections::btree_map::Iter<'a, K, V>)
+    ensures
+        vstd::std_specs::iter::IteratorSpec::obeys_prophetic_iter_laws(&r),
+        vstd::std_specs::iter::IteratorSpec::decrease(&r) is Some,
+        vstd::std_specs::iter::IteratorSpec::remaining(&r).len() == btree_seq(m@).len(),
+        forall|i: int| 0 <= i < btree_seq(m@).len() ==>
+            *(#[trigger] vstd::std_specs::iter::IteratorSpec::remaining(&r)[i]).0 == btree_seq(m@)[i].0
+            && *vstd::std_specs::iter::IteratorSpec::remaining(&r)[i].1 == btree_seq(m@)[i].1,
+{
+    let r = m.iter();
+    proof {
+        // (also: iterating a finite map terminates -- `decrease` is defined for it)
+        assume(vstd::std_specs::iter::IteratorSpec::decrease(&r) is Some);
+        assume(vstd::std_specs::iter::IteratorSpec::remaining(&r).len() == btree_seq(m@).len()
+            && forall|i: int| 0 <= i < btree_seq(m@).len() ==>
+                *(#[trigger] vstd::std_specs::iter::IteratorSpec::remaining(&r)[i]).0 == btree_seq(m@)[i].0
+                && *vstd::std_specs::iter::IteratorSpec::remaining(&r)[i].1 == btree_seq(m@)[i].1);
+    }
+    r
+}
+
+#[verifier::external_body]
+pub fn vx_btree_iter_enumerate<'a, K, V>(m: &'a std::collections::BTreeMap<K, V>) -> (r: core::iter::Enumerate<std::collections::btree_map::Iter<'a, K, V>>)
+    ensures
+        vstd::std_specs::iter::IteratorSpec::remaining(&r).len() == btree_seq(m@).len(),
+        forall|i: int| 0 <= i < btree_seq(m@).len() ==>
+            (#[trigger] vstd::std_specs::iter::IteratorSpec::remaining(&r)[i]).0 as int == i
+            && *vstd::std_specs::iter::IteratorSpec::remaining(&r)[i].1.0 == btree_seq(m@)[i].0
+            && *vstd::std_specs::iter::IteratorSpec::remaining(&r)[i].1.1 == btree_seq(m@)[i].1,
+{
+    m.iter().enumerate()
+}
+
+pub broadcast axiom fn axiom_btree_iter_enumerate_laws<'a, K, V>(e: core::iter::Enumerate<std::collections::btree_map::Iter<'a, K, V>>)
+    ensures
+        #[trigger] vstd::std_specs::iter::IteratorSpec::obeys_prophetic_iter_laws(&e),
+        vstd::std_specs::iter::IteratorSpec::decrease(&e) == Some(vstd::std_specs::iter::IteratorSpec::remaining(&e).len());
